@@ -63,8 +63,9 @@ def meta_text(nc, ns, rid):
     xa = nc - 1
     return "\n".join([
         "acqMnMaXaDw=0,0,%d,1" % xa, "nSavedChans=%d" % nc, "niAiRangeMax=5", "niAiRangeMin=-5",
-        "niMAGain=1", "niMNGain=1", "niSampRate=%r" % FS, "snsMnMaXaDw=0,0,%d,1" % xa,
-        "snsSaveChanSubset=all", "typeThis=nidq", "fileTimeSecs=%r" % (ns / FS),
+        "niMAGain=1", "niMNGain=1", "niSampRate=%d" % FS, "snsMnMaXaDw=0,0,%d,1" % xa,
+        "snsSaveChanSubset=all", "typeThis=nidq",
+        "fileTimeSecs=%s" % np.format_float_positional(ns / FS, trim="-"),
         "fileSizeBytes=%d" % (ns * nc * 2), "userNotes=recording %d" % rid, "~snsShankMap=(1,2,0)"]) + "\n"
 
 
@@ -524,11 +525,12 @@ def fs_oracle(world, sc, fp, obs):
         if fin["cbin"] != init["cbin"] and fin["cbin"] != comp:
             P.append(("final_wrong", "x.cbin changed to something that is not the new stream: %s" % fin["cbin"]))
         if fin["bin"] != orig:
-            if not (done and not sc["keep"]):
-                P.append(("source_touched", "x.bin is %s after a run that %s" % (
-                    fin["bin"], "failed" if not done else "kept the original")))
+            if sc["keep"]:
+                P.append(("source_touched", "x.bin is %s although keep_original=True" % fin["bin"]))
             if fin["cbin"] != comp or fin["ch"] != hdr:
                 P.append(("source_lost", "x.bin removed but x.cbin/x.ch are %s/%s" % (fin["cbin"], fin["ch"])))
+        elif not done and fin["bin"] != init["bin"]:
+            P.append(("source_touched", "x.bin changed by a failed run"))
         if done:
             if fin["cbin"] != comp or fin["ch"] != hdr or fin["cbin_tmp"][0] != 0:
                 P.append(("done_incomplete", "compress_file returned but cbin/ch/tmp are %s/%s/%s" % (
@@ -548,10 +550,9 @@ def fs_oracle(world, sc, fp, obs):
                     init["ch"] == [2, 3, init["cbin"][2], init["cbin"][3]]:
                 P.append(("ch_mismatch", "failed compress_file left x.cbin %s next to x.ch %s" % (fin["cbin"], fin["ch"])))
     elif op == 1:
-        if (fin["cbin"] != comp or fin["ch"] != hdr):
-            if not (done and not sc["keep"]):
-                P.append(("source_touched", "x.cbin/x.ch are %s/%s after a run that %s" % (
-                    fin["cbin"], fin["ch"], "failed" if not done else "kept the original")))
+        if fin["cbin"] != comp or fin["ch"] != hdr:
+            if sc["keep"]:
+                P.append(("source_touched", "x.cbin/x.ch are %s/%s although keep_original=True" % (fin["cbin"], fin["ch"])))
             if fin["bin"] != orig:
                 P.append(("source_lost", "x.cbin or x.ch removed but x.bin is %s" % fin["bin"]))
         if done:
@@ -769,10 +770,11 @@ def run(ctx):
         # ------------------------------------------------------------ worlds
         nworlds = 2 if not ctx.thorough() else 6
         for w in range(nworlds):
-            cs1 = rng.choice([2, 3, 4])
-            mm = rng.choice([1, 2, 3, 4]) if not ctx.thorough() else rng.choice([1, 2, 3, 5, 8])
-            ns = max(1, mm * cs1 - rng.choice([0, 1]))
-            cs2 = cs1 + rng.choice([1, 2])
+            # config 1 always has >= 2 chunks; config 2 has other bounds (a single chunk in some worlds)
+            cs1 = rng.choice([1, 2, 3, 4])
+            mm = rng.choice([2, 3, 4]) if not ctx.thorough() else rng.choice([2, 3, 5, 8])
+            ns = mm * cs1 + rng.choice([0, 1]) if cs1 > 1 else mm
+            cs2 = rng.choice([cs1 + 1, cs1 + 2, ns, ns + 3])
             nc = rng.choice([1, 2, 3, 5, 385]) if w else 3
             wd = root / ("w%d" % w)
             world = World(wd, rng, nc, ns, {1: cs1, 2: cs2})
